@@ -17,7 +17,7 @@ VERIF = os.path.dirname(os.path.dirname(os.path.abspath(__file__)))
 REPO = os.path.realpath(os.environ.get("VERIF_REPO", "/repo"))
 OUT = os.environ.get("VERIF_OUT", VERIF)  # evidence/ and replays/ go here (mutation runs use a scratch dir)
 NPROC = int(os.environ.get("VERIF_NPROC", "16"))
-HANG_S = float(os.environ.get("VERIF_HANG_S", "20"))
+HANG_S = float(os.environ.get("VERIF_HANG_S", "10"))
 _bound = False
 
 
@@ -38,6 +38,11 @@ def bind():
         sys.exit(2)
     # the interpreter's default recursion limit (1000) is kept: it is what library users run with
     _bound = True
+
+
+class TooManyHangs(BaseException):
+    """a shard in which library calls keep hanging is abandoned (hangs are C01's verdicts; the other checks only
+    have to stay fast)"""
 
 
 class HangTimeout(BaseException):
@@ -114,6 +119,8 @@ class Acc:
             return fn(*a, **k)
         except HangTimeout:
             self.skipped_hang += 1
+            if self.skipped_hang >= 3:
+                raise TooManyHangs()
             return CRASH
         except Exception:
             self.skipped_crash += 1
@@ -214,7 +221,10 @@ def _run_shard(args):
     mod = importlib.import_module(modname)
     acc = Acc(mod.ID)
     t0 = time.time()
-    mod.run_shard(shard, acc)
+    try:
+        mod.run_shard(shard, acc)
+    except TooManyHangs:
+        acc.counters["shards_abandoned_after_hangs"] = 1
     acc.counters["shard_cpu_s_x1000"] = int((time.time() - t0) * 1000)
     return acc
 
